@@ -204,6 +204,11 @@ def matrix_history(cfg, sizes, kinds):
         expect[dname + "/c" + sf] = big
         names += [m, e, dname + "/c" + sf]
         dirs.append(dname)
+    # truncate an existing file with content to nothing (an encoder may emit nothing at all for empty content)
+    tr = next((nm for nm in names if blobs[expect[nm]]["len"] > 0), None)
+    if tr is not None:
+        calls.append({"op": "writefile", "name": tr, "flags": 0o1000 | 1, "perm": 0o644, "blob": empty, "flag": False})
+        expect[tr] = empty
     # the write cache under this configuration, through one handle: write, rewind, ask the handle for its size, read the
     # content back through the same handle, replace the first bytes, close; then it is read like every other file
     W = 0o100 | 2
@@ -238,8 +243,10 @@ def matrix_stream(ctx):
         # every compression x one level, every encryption, every signature at least once; 24 configurations
         pick = []
         for i, comp in enumerate(COMPS):
-            pick.append(dict(comp=comp, level=LEVELS[i % 3], enc=["", "age", "pgp"][i % 3], sig=["", "minisign", "pgp"][(i // 2) % 3]))
-            pick.append(dict(comp=comp, level=LEVELS[(i + 1) % 3], enc=["", "age", "pgp"][(i + 1) % 3], sig=["", "minisign", "pgp"][(i + 1) % 3]))
+            # every compression once without encryption (the encoders' own behaviour on empty and tiny contents shows only then)
+            # and once under age or OpenPGP; levels and signature formats rotate
+            pick.append(dict(comp=comp, level=LEVELS[i % 3], enc="", sig=["", "minisign", "pgp"][(i // 2) % 3]))
+            pick.append(dict(comp=comp, level=LEVELS[(i + 1) % 3], enc=["age", "pgp"][i % 2], sig=["", "minisign", "pgp"][(i + 1) % 3]))
         cfgs = pick
     hs = []
     for c in cfgs:
